@@ -20,10 +20,12 @@ pub enum ElemKind {
     Nested,
     Big,
     F64,
+    U32,
+    OptU64,
 }
 
 impl ElemKind {
-    pub const ALL: [ElemKind; 8] = [ElemKind::U8, ElemKind::U64, ElemKind::Str, ElemKind::T24, ElemKind::Zst, ElemKind::Nested, ElemKind::Big, ElemKind::F64];
+    pub const ALL: [ElemKind; 10] = [ElemKind::U8, ElemKind::U64, ElemKind::Str, ElemKind::T24, ElemKind::Zst, ElemKind::Nested, ElemKind::Big, ElemKind::F64, ElemKind::U32, ElemKind::OptU64];
     pub fn tyname(self) -> &'static str {
         match self {
             ElemKind::U8 => "u8",
@@ -34,6 +36,8 @@ impl ElemKind {
             ElemKind::Nested => "List[u64]",
             ElemKind::Big => "Big",
             ElemKind::F64 => "f64",
+            ElemKind::U32 => "u32",
+            ElemKind::OptU64 => "u64?",
         }
     }
     pub fn suffix(self) -> &'static str {
@@ -46,6 +50,8 @@ impl ElemKind {
             ElemKind::Nested => "nest",
             ElemKind::Big => "big",
             ElemKind::F64 => "f64",
+            ElemKind::U32 => "u32",
+            ElemKind::OptU64 => "optu64",
         }
     }
 }
@@ -88,6 +94,46 @@ impl Elem for u64 {
     }
     fn debug(&self) -> String {
         format!("{self}")
+    }
+}
+
+impl Elem for u32 {
+    const KIND: ElemKind = ElemKind::U32;
+    fn from_m(v: &MVal, _: &Inner) -> Self {
+        match v {
+            MVal::Int(x) => *x as u32,
+            _ => 0,
+        }
+    }
+    fn to_m(&self, _: &mut Inner) -> Result<MVal, String> {
+        if *self == 0xDDDD_DDDD || *self == 0xCDCD_CDCD {
+            return Err(format!("u32 element {:#x} is a poison word", *self));
+        }
+        Ok(MVal::Int(*self as u64))
+    }
+    fn debug(&self) -> String {
+        format!("{self}")
+    }
+}
+
+impl Elem for Option<u64> {
+    const KIND: ElemKind = ElemKind::OptU64;
+    fn from_m(v: &MVal, _: &Inner) -> Self {
+        match v {
+            MVal::OptInt(o) => *o,
+            _ => None,
+        }
+    }
+    fn to_m(&self, _: &mut Inner) -> Result<MVal, String> {
+        if let Some(x) = self {
+            if alloc::is_poison_u64(*x) {
+                return Err(format!("u64? element Some({x:#x}) is a poison word"));
+            }
+        }
+        Ok(MVal::OptInt(*self))
+    }
+    fn debug(&self) -> String {
+        format!("{self:?}")
     }
 }
 
@@ -381,6 +427,8 @@ pub struct Warm {
     pub nest: Arc<Fns<List<u64>>>,
     pub big: Arc<Fns<Val<Big>>>,
     pub f64: Arc<Fns<f64>>,
+    pub u32: Arc<Fns<u32>>,
+    pub optu64: Arc<Fns<Option<u64>>>,
     pub sum_u64: F<fn(List<u64>) -> u64>,
     pub join_str: F<fn(List<RotoString>, RotoString) -> RotoString>,
 }
@@ -409,6 +457,8 @@ pub fn warm() -> Warm {
         nest: Arc::new(Fns::load(&mut pkg)),
         big: Arc::new(Fns::load(&mut pkg)),
         f64: Arc::new(Fns::load(&mut pkg)),
+        u32: Arc::new(Fns::load(&mut pkg)),
+        optu64: Arc::new(Fns::load(&mut pkg)),
         sum_u64: pkg.get_function("sum_u64").expect("sum_u64"),
         join_str: pkg.get_function("join_str").expect("join_str"),
         _rt: rt,
@@ -445,6 +495,16 @@ impl WarmSel for Val<T24> {
 impl WarmSel for Val<Zst> {
     fn fns(w: &Warm) -> Arc<Fns<Self>> {
         w.zst.clone()
+    }
+}
+impl WarmSel for u32 {
+    fn fns(w: &Warm) -> Arc<Fns<Self>> {
+        w.u32.clone()
+    }
+}
+impl WarmSel for Option<u64> {
+    fn fns(w: &Warm) -> Arc<Fns<Self>> {
+        w.optu64.clone()
     }
 }
 impl WarmSel for f64 {
